@@ -104,6 +104,9 @@ func c15Run(c c15Case, st *fw.Stats) []fw.Viol {
 			parts := strings.SplitN(op, ":", 2)
 			api, name := parts[0], parts[1]
 			path := fmt.Sprintf("/p%d/{id}", i)
+			if len(c.Ops)%2 == 0 {
+				path = fmt.Sprintf("/p%d", i) // static routes: BuildURL without arguments
+			}
 			var rt *rux.Route
 			switch api {
 			case "AddNamed":
@@ -128,6 +131,16 @@ func c15Run(c c15Case, st *fw.Stats) []fw.Viol {
 			}
 			all = append(all, rt)
 			want[name] = rt
+			// after every step the URL built for the name is the URL of the route now registered under it
+			if !strings.Contains(path, "{") {
+				if pv := try(func() {
+					if u := r.BuildURL(name); u.Path != rt.Path() {
+						add("naming:build-stale", fmt.Sprintf("naming operations %v, after step %d: BuildURL(%q) = %q, the route now registered under that name has path %q", c.Ops, i+1, name, u.Path, rt.Path()))
+					}
+				}); pv != nil {
+					add("naming:build-panic", fmt.Sprintf("naming operations %v, after step %d: BuildURL(%q) panicked: %v", c.Ops, i+1, name, pv))
+				}
+			}
 		}
 		if len(c.Ops) > 1 {
 			st.Nontrivial++
